@@ -311,7 +311,7 @@ def wide_history_case(rng):
     the NUMBER of children (children sorted in reverse, one child renamed, one child replaced by a fresh node); then the
     final add_* call goes through a child of that parent again"""
     import copy
-    k = rng.randint(10, 13)
+    k = rng.choice([rng.randint(10, 13), rng.randint(10, 13), 66, 130])     # beyond any 16 / 50 / 64 / 100 / 128 switch
     kids = [["k%02d" % i, {}, ([["g", {}, []]] if rng.random() < 0.3 else [])] for i in range(k)]
     rng.shuffle(kids)
     tree0 = ["r", {}, kids]
@@ -321,6 +321,7 @@ def wide_history_case(rng):
     kind = rng.choice(["sortrev", "rename", "replace"])
     j = rng.randrange(k)
     target = tw[2][j]
+    old_name = target[0]
     if kind == "sortrev":
         edit = ["sortrev", ["r"]]
         tw[2].sort(key=lambda t: t[0], reverse=True)
@@ -332,6 +333,8 @@ def wide_history_case(rng):
         tw[2].remove(target)
         tw[2].append(["zn", {}, []])
     through = rng.choice(tw[2])[0]
+    if kind != "sortrev" and rng.random() < 0.5:
+        through = old_name        # the name that LEFT the parent (renamed / replaced child): a new node has to be created
     fn = rng.choice(["addpath", "adddict"])
     items = [[["r", through, "z"], 0, 0, {"v": 1}]]
     if fn == "adddict":
